@@ -22,11 +22,13 @@ EXTENDS Emit, CrcOps
 
 CONSTANTS Places, Sizes, Algs, AuxSizes,   \* configuration grid of the model
           Octets,                          \* data alphabet of the model
-          MSize                            \* medium size used by the model (harness: cfg argument)
+          MSize,                           \* medium size used by the model (harness: cfg argument)
+          MaxDepth                         \* exploration depth bound of the model-checking configuration
 GUARD == 238
 
 VARIABLES cfg, medium, armed, last, ev
 vars == <<cfg, medium, armed, last>>
+base == <<cfg, medium, last>>   \* the actions below do not mention armed; Next / the trace spec do
 \* cfg  = [place, n, alg, aux, msize]; alg 1 = 16-bit trivial sum, 2 = CRC-16/ARC, 3 = 32-bit sum
 \* armed = <<>> | <<"fault", k, kind>> | <<"crash", cut, torn>>
 \* last  = what C11 needs to know about the most recent store: [prev, new, whole] or <<>>
@@ -73,38 +75,38 @@ Init == cfg = <<>> /\ medium = <<>> /\ armed = <<>> /\ last = <<>> /\ ev = Boot
 
 Configure(msize, place, n, alg, aux) ==
     /\ cfg' = [place |-> place, n |-> n, alg |-> alg, aux |-> aux, msize |-> msize]
-    /\ medium' = Fill(msize, GUARD) /\ armed' = <<>> /\ last' = <<>>
+    /\ medium' = Fill(msize, GUARD) /\ last' = <<>>
     /\ ev' = Ev("cfg", <<msize, place, n, alg, aux>>, <<0, 0, 0>> \o Fill(msize, GUARD))
 
 (* normal (unarmed) operations *)
-Store(img) == /\ cfg # <<>> /\ armed = <<>> /\ Len(img) = cfg.n
+Store(img) == /\ cfg # <<>> /\ Len(img) = cfg.n
               /\ medium' = StoreAll(cfg, medium, img)
               /\ last' = [prev |-> DataImage(cfg, medium), new |-> img]
-              /\ UNCHANGED <<cfg, armed>>
+              /\ UNCHANGED cfg
               /\ ev' = Ev("store", <<Len(img)>> \o img, <<OK, 0, 0>> \o medium')
-StoreP(off, d) == /\ cfg # <<>> /\ armed = <<>>
+StoreP(off, d) == /\ cfg # <<>>
                   /\ IF PartOk(cfg, off, Len(d))
                      THEN /\ medium' = StorePart(cfg, medium, off, d)
                           /\ last' = [prev |-> DataImage(cfg, medium), new |-> DataImage(cfg, medium')]
                           /\ ev' = Ev("storep", <<off, Len(d)>> \o d, <<OK, 0, 0>> \o medium')
                      ELSE /\ UNCHANGED <<medium, last>>
                           /\ ev' = Ev("storep", <<off, Len(d)>> \o d, <<RANGE, 0, 0>> \o medium)
-                  /\ UNCHANGED <<cfg, armed>>
-Validate == /\ cfg # <<>> /\ armed = <<>> /\ UNCHANGED vars
+                  /\ UNCHANGED cfg
+Validate == /\ cfg # <<>> /\ UNCHANGED base
             /\ ev' = Ev("validate", <<>>, <<ValidateF(cfg, medium), 0, 0>>)
-Fetch == /\ cfg # <<>> /\ armed = <<>> /\ UNCHANGED vars
+Fetch == /\ cfg # <<>> /\ UNCHANGED base
          /\ ev' = Ev("fetch", <<>>, <<OK, 0, 0>> \o DataImage(cfg, medium))
-FetchP(off, len) == /\ cfg # <<>> /\ armed = <<>> /\ UNCHANGED vars
+FetchP(off, len) == /\ cfg # <<>> /\ UNCHANGED base
                     /\ ev' = Ev("fetchp", <<off, len>>,
                                 IF PartOk(cfg, off, len) THEN <<OK, 0, 0>> \o Slice(medium, DataAddr(cfg) + off, len)
                                 ELSE <<RANGE, 0, 0>>)
-Reset(fill) == /\ cfg # <<>> /\ armed = <<>>
-               /\ medium' = ResetF(cfg, medium, fill) /\ last' = <<>> /\ UNCHANGED <<cfg, armed>>
+Reset(fill) == /\ cfg # <<>>
+               /\ medium' = ResetF(cfg, medium, fill) /\ last' = <<>> /\ UNCHANGED cfg
                /\ ev' = Ev("reset", <<fill>>, <<OK, 0, 0>> \o medium')
-Corrupt(a, val) == /\ cfg # <<>> /\ armed = <<>> /\ a \in RegionLo(cfg)..RegionHi(cfg) - 1
-                   /\ medium' = Overlay(medium, a, <<val>>) /\ last' = <<>> /\ UNCHANGED <<cfg, armed>>
+Corrupt(a, val) == /\ cfg # <<>> /\ a \in RegionLo(cfg)..RegionHi(cfg) - 1
+                   /\ medium' = Overlay(medium, a, <<val>>) /\ last' = <<>> /\ UNCHANGED cfg
                    /\ ev' = Ev("corrupt", <<a, val>>, <<0, 0, 0>> \o medium')
-Reopen == /\ cfg # <<>> /\ UNCHANGED <<cfg, medium, last>> /\ armed' = <<>>
+Reopen == /\ cfg # <<>> /\ UNCHANGED base
           /\ ev' = Ev("reopen", <<>>, <<0, 0, 0>>)
 
 ---------------------------------------------------------------------------
@@ -132,19 +134,22 @@ ASSUME Chunkable
 
 ---------------------------------------------------------------------------
 Images(n) == {s \in SeqsUpTo(Octets, n) : Len(s) = n}
-Next ==
-    \/ \E p \in Places, n \in Sizes, a \in Algs, x \in AuxSizes : x <= n + 1 /\ Configure(MSize, p, n, a, x)
+BaseNext ==
+    \/ cfg = <<>> /\ \E p \in Places, n \in Sizes, a \in Algs, x \in AuxSizes : (x = 9999 \/ x <= n + 1) /\ Configure(MSize, p, n, a, x)
     \/ (cfg # <<>> /\ \E img \in Images(cfg.n) : Store(img))
     \/ (cfg # <<>> /\ \E off \in {-1, -2} \cup 0..cfg.n + 1, d \in SeqsUpTo(Octets, MinOf(cfg.n + 1, 2)) : StoreP(off, d))
     \/ Validate \/ Fetch
     \/ (cfg # <<>> /\ \E off \in {-1, -2} \cup 0..cfg.n + 1, len \in 0..cfg.n + 1 : FetchP(off, len))
     \/ (\E f \in {0, 255} : Reset(f))
     \/ (cfg # <<>> /\ \E a \in RegionLo(cfg)..RegionHi(cfg) - 1, val \in {0, 1} : Corrupt(a, (At(medium, a) + 1 + val * 127) % 256))
+Next == BaseNext /\ UNCHANGED armed
 Spec == Init /\ [][Next]_<<vars, ev>>
 
 Depth == TLCGet("level") <= MaxDepth
-Key == ToString(<<cfg, medium>>)
+\* (ToString of a record is not canonical in TLC - field order varies - so keys are built from tuples)
+CfgKey(c) == IF c = <<>> THEN <<>> ELSE <<c.place, c.n, c.alg, c.aux, c.msize>>
+Key == ToString(<<CfgKey(cfg), medium>>)
 View == <<cfg, medium>>
-EmitAll == EmitEdge(Key, ToString(<<cfg', medium'>>), ev')
+EmitAll == EmitEdge(Key, ToString(<<CfgKey(cfg'), medium'>>), ev')
 EmitInit == ev.op = "boot" => EmitInitial(Key)
 =============================================================================
